@@ -3,9 +3,11 @@ C05 — Single-particle trajectories obey mass and motion invariants   (PARTIAL 
 
 proof        : TamocV/Props/C05.lean over the hand model TamocV/Model/Sbm.lean (derivs, loop control of
                calculate_path, sbm_ic, K_T bookkeeping of simulate) + TamocV/Model/Particle17.lean
-tie          : (H) value correspondence: `derivs` on sampled states of real trajectories with the library
-               answers recorded from the real call handed to the model as oracle; stop tests on every
-               stored step (the real loop continued / stopped); post-step fixed point; initial row
+tie          : (H) value correspondence: `derivs` on sampled states — stored rows, the integrator's UNCLIPPED
+               states (recorded by a recording subclass of scipy.integrate.ode installed from this process) and
+               synthetic states with negative masses — with the library answers recorded from the real call
+               handed to the model as oracle; the stop tests on every step (the real loop continued / stopped);
+               post-step (heat reset + clipping) from the integrator's raw state to the stored row; initial row
 real code    : complete single_bubble_model.Model(profile).simulate(...) runs over the property's quantifier,
                all predicates of the statement evaluated on the stored Model.t / Model.y
 NOT modelled : the ODE integrator (scipy VODE): monotone times, step <= delta_t, monotone depth, mass never
@@ -17,9 +19,9 @@ from common import req, close, relerr, TOL, run_driver
 import scen_sbm as S
 
 META = {
-    'text': 'PARTIAL. Theorems (Lean 4, over the reals, all states, all list lengths, EVERY integrator with hidden state): the right-hand side has depth rate <= 0 for zero vertical current and non-negative slip; zero mass rates for an inert particle without biodegradation and for K = 0; non-positive mass rates in water free of the compounds; the loop stores non-negative masses (clipping), resets the heat to sum(m) cp Ta after equilibration, returns within 300001 passes with one of surface / stall / dissolved / step cap / 14-day cap / integrator failure, drops negative-depth rows, keeps the initial row (release position, masses of the diameter / mole-fraction conversion with total pi/6 de^3 rho, heat T0 sum(m0) cp) first; simulate restores K_T. Real complete simulations over the quantifier are post-processed row by row for every predicate of the statement (incl. what VODE contributes: times, step size, monotone depth, mass bounds), derivs and the loop control are compared with the Lean model on sampled states, two identical runs are compared bit for bit.',
-    'note': 'Partial: the ODE integrator (scipy VODE) is not modelled - times non-decreasing, step <= delta_t, depth monotone along the stored trajectory and masses not exceeding their initial values are observed on sampled real trajectories only (solver tolerance). Trusted: Lean kernel + 3 standard axioms; hand transcriptions Model/Sbm.lean, Model/Particle17.lean (validated each run by correspondence on sampled states); real arithmetic for IEEE doubles; equations of state and profile look-ups are oracle parameters.',
-    'technique': 'Lean 4 proof over a hand-written model of right-hand side and loop control + complete real simulations post-processed + value correspondence on sampled states',
+    'text': 'PARTIAL. Theorems (Lean 4, over the reals, all states, all list lengths, EVERY integrator with hidden state): the right-hand side has depth rate <= 0 for zero vertical current and non-negative slip; zero mass rates for an inert particle without biodegradation and for K = 0 without biodegradation; non-positive mass rates in water free of the compounds; the loop stores non-negative masses (clipping), resets the heat to sum(m) cp Ta after equilibration, returns within 300001 passes with one of surface / stall / dissolved / step cap / 14-day cap (or the integrator reporting failure), drops negative-depth rows, keeps the initial row first (release position, masses of the diameter / mole-fraction conversion with total pi/6 de^3 rho, heat T0 sum(m0) cp); simulate writes K_T back. Real complete simulations over the quantifier are post-processed row by row for every predicate of the statement (incl. what VODE contributes: times, step size, monotone depth, mass bounds, depth inside the profile\'s own range), derivs / post-step / stop tests are compared with the Lean model on stored, raw (unclipped) and synthetic negative-mass states, two identical runs are compared bit for bit.',
+    'note': 'Partial: the ODE integrator (scipy VODE) is not modelled - times non-decreasing, step <= delta_t, depth monotone along the stored trajectory and masses not exceeding their initial values are observed on sampled real trajectories only; the step cap (300000 passes) is covered by the theorem only. READING of the K = 0 clause: the mass-transfer factor scales dissolution only; "keeps its component masses" is checked exactly on the rows before any biodegradation acts (lag on and t below the smallest lag time, or all k_bio = 0); where database biodegradation acts the masses decrease by design (m_end/m0 = 0.95 after 5000 s with the lag off) and are only required not to increase. Trusted: Lean kernel + 3 standard axioms; hand transcriptions Model/Sbm.lean, Model/Particle17.lean (validated each run by correspondence on sampled states); real arithmetic for IEEE doubles; equations of state and profile look-ups are oracle parameters.',
+    'technique': 'Lean 4 proof over a hand-written model of right-hand side and loop control + complete real simulations post-processed + value correspondence on stored / raw / synthetic states',
 }
 GEN = []
 MODULES = ['TamocV.Props.C05', 'TamocV.Model.Sbm', 'TamocV.Model.Particle17']
@@ -27,15 +29,16 @@ RULE = ('complete simulations: gas bubbles / liquid drops of 1-4 database compou
         '(log-uniform, coupled to the maximum step through a crude rise-time estimate so that a run stays within the step budget); '
         'diameter 0.2-20 mm log-uniform; T0 ambient, +0..1 K, +0.3..30 K; K, K_T in {0, 1, U(0,10)}; fdis 1e-9..1e-1; t_hyd 0 or 1-2000 s; '
         'lag on/off; delta_t in {1,10,100,1000, log-uniform}; profiles: world-ocean average without / with computed dissolved gases, '
-        'synthetic stratified profiles without / with dissolved methane, ethane, oxygen, nitrogen, benzene; still water. A simulation is non-trivial when its '
-        '(particle kind, composition, profile, stop reason, rounded depth/diameter) is new; derivs states are stored rows '
-        '(first, second, middle, last two, random) with the flag K_T set to the user factor or to 0')
+        'synthetic stratified profiles starting at 0 m or BELOW the surface (top at 10-50 m), without / with dissolved methane, ethane, oxygen, '
+        'nitrogen, benzene; still water; plus runs sized to end at the 14-day cap and small soluble bubbles that dissolve completely. '
+        'A simulation is non-trivial when its (particle kind, composition, profile, stop reason, rounded depth/diameter) is new; derivs states are stored rows '
+        '(first, second, middle, last two, random), raw integrator states with negative masses and synthetic negative-mass variants, with the flag K_T set to the user factor or to 0')
 LEVEL_NOTE = ('partial: theorems over the reals about the hand-written model of derivs / loop control / initial row for every '
               'integrator; VODE itself is not modelled, its contribution (times, step size, monotone depth, mass bounds) is observed '
-              'on sampled real simulations within solver tolerance; model tied to /repo by correspondence on sampled states')
+              'on sampled real simulations; model tied to /repo by correspondence on sampled states')
 
-VODE_RTOL, VODE_ATOL = 1e-3, 1e-6      # calculate_path l.816-817
 NAN = float('nan')
+DEPTH_ROUNDING = 1e-9          # m: anything above is a real increase of the depth, not rounding
 
 
 def audit_files():
@@ -53,9 +56,17 @@ def build_profiles(ctx):
     for i in range(ctx.n(1, 6)):
         profs.append(('synthetic-%d' % i, S.synthetic_profile(r)))
         profs.append(('synthetic-%d+chem' % i, S.synthetic_profile(r, chems=r.sample(chems, r.randint(1, 4)))))
-    # about 40 % of the simulations in the world-ocean average profile (half of them with dissolved gases)
-    k = max(1, (2 * len(profs)) // 6)
-    return profs + world * k
+    # casts that start BELOW the surface: the profile's own range is [z_top, z_max]
+    below = []
+    for i in range(ctx.n(2, 6)):
+        below.append(('synthetic-top-below-surface-%d' % i,
+                      S.synthetic_profile(r, z_max=r.choice([600., 1500., 3600.]), z_top=r.uniform(10., 50.),
+                                          chems=r.sample(chems, 2) if r.random() < 0.5 else None)))
+    # about 35 % of the simulations in the world-ocean average profile (half of them with dissolved gases),
+    # about 20 % in profiles whose top lies below the surface
+    k = max(1, len(profs) // 3)
+    kb = max(1, (len(profs) + 2 * k) // (3 * len(below)))
+    return profs + world * k + below * kb
 
 
 def case_public(c):
@@ -71,27 +82,33 @@ def stop_flags(zmin, fdis, f, k, tP, zP, t, z):
                 capT=bool(t > 1209600))
 
 
+def particle_cp():
+    """SingleParticle.cp as documented (dispersed_phases l.141): half the heat capacity of seawater"""
+    from tamoc import seawater
+    return float(seawater.cp()) * 0.5
+
+
 # ---------------------------------------------------------------------------
 # predicates on one finished simulation
 # ---------------------------------------------------------------------------
 
 def check_sim(ctx, idx, c, m, m2, stats):
-    """all predicates of the statement on the stored trajectory; returns the stop-reason string"""
-    from tamoc import seawater
+    """all predicates of the statement on the stored trajectory; returns (stop reason, rows removed, flags)"""
     prf, obj = c['prf'], c['obj']
     pub = dict(case_public(c), sim_index=idx)
 
     def viol(key, what, **kw):
         ctx.violation(key, what, dict(pub, **kw))
     t, y = np.asarray(m.t, dtype=float), np.asarray(m.y, dtype=float)
+    raw = m._raw
     n = len(t)
-    nc = y.shape[1] - 4
     ctx.evaluations += n
     masses = y[:, 3:-1]
     z = y[:, 2]
-    k_steps = m._k_steps
-    removed = (k_steps + 1 - n) if k_steps is not None else 0
+    k_steps = len(raw)
+    removed = k_steps + 1 - n
     ctx.count('rows', n)
+    zmin, zmax = float(prf.z_min), float(prf.z_max)
     # ---- finite, non-negative masses ----------------------------------------------------
     if not np.isfinite(masses).all() or not np.isfinite(y[:, :3]).all() or not np.isfinite(t).all():
         i = int(np.argmax(~np.isfinite(y).all(axis=1)))
@@ -106,49 +123,68 @@ def check_sim(ctx, idx, c, m, m2, stats):
     if (dt < 0).any():
         i = int(np.argmax(dt < 0))
         viol('time-decreases', 'recorded times decrease', row=i, t=[float(t[i]), float(t[i + 1])])
-    lim = c['delta_t'] * (1 + 8 * np.finfo(float).eps)
-    # the step is measured against t[i] + delta_t in floating point: one rounding of the sum
+    # the step is taken towards t[i] + delta_t evaluated in floating point: a few roundings of that sum
     over = dt - c['delta_t']
-    if len(dt) and (dt > lim).any() and (over > 4 * np.spacing(t[1:])).any():
+    if len(dt) and (over > 4 * np.spacing(t[1:]) + 8 * np.finfo(float).eps * c['delta_t']).any():
         i = int(np.argmax(over))
         viol('step-exceeds-delta_t', 'successive outputs further apart than the maximum step', row=i, dt=float(dt[i]), delta_t=c['delta_t'])
     if len(dt):
         stats['max dt/delta_t'] = max(stats.get('max dt/delta_t', 0.), float(dt.max() / c['delta_t']))
-    # ---- stop reason ----------------------------------------------------------------------
-    reason = None
-    zmin = float(prf.z_min)
-    if removed > 0:
-        reason = 'surface(overshoot removed)'
-        flags = None
-    elif n >= 2:
-        f = masses[-2].sum() / masses[0].sum()
-        flags = stop_flags(zmin, c['fdis'], f, n - 1, t[-2], z[-2], t[-1], z[-1])
-        on = [k for k in ('surface', 'stall', 'dissolved', 'capK', 'capT') if flags[k]]
-        reason = '+'.join(on) if on else None
+    # ---- stop reason: the tests of the statement on the LAST pass (integrator's own last state) -------------
+    reason, flags = None, None
+    if k_steps >= 1 and n >= 1:
+        tL, yL, okL, _kt = raw[-1]
+        iP = k_steps - 1                               # stored row the last pass started from (never removed)
+        if iP < n:
+            f = masses[iP].sum() / masses[0].sum()
+            flags = stop_flags(zmin, c['fdis'], f, k_steps, t[iP], z[iP], tL, yL[2])
+            on = [k for k in ('surface', 'stall', 'dissolved', 'capK', 'capT') if flags[k]]
+            reason = '+'.join(on) if on else None
+        if not okL:
+            ctx.count('integrator reported failure on the last pass')
     if reason is None:
         viol('stop-undocumented', 'the run ended although none of surface / stall / dissolved / step cap / time cap holds (integrator gave up)',
              last_rows=[[float(v) for v in y[-2]], [float(v) for v in y[-1]]] if n >= 2 else [], t_last=[float(v) for v in t[-2:]], k=k_steps)
         reason = 'undocumented'
+    if removed > 0:
+        ctx.count('negative-depth rows removed', removed)
+        if not (flags and flags['surface']):
+            viol('row-removed-without-surface', 'a stored row was removed although the surface test does not hold', removed=removed)
     ctx.count('stop:' + reason)
-    # ---- depth ----------------------------------------------------------------------------
+    # ---- depth: never increases (no tolerance is granted by the statement; 1e-9 m is rounding) ---------------
     dz = np.diff(z)
     for i in range(n - 1):
         final = (removed == 0 and i == n - 2)
         if dz[i] > 0.:
-            tol = (VODE_RTOL * abs(z[i]) + VODE_ATOL) if final else 0.
-            stats['max final-step depth increase (m)'] = max(stats.get('max final-step depth increase (m)', 0.), float(dz[i])) if final else stats.get('max final-step depth increase (m)', 0.)
             if final:
-                ctx.count('final step: depth rose (stall)')
-            if dz[i] > tol or (final and 'stall' not in reason):
-                viol('depth-increases', 'depth increases in still water' + (' on the last step by more than the solver tolerance / without the stall stop' if final else ' on a step after which the loop continued'),
+                ctx.count('last step: depth rose')
+                stats['max last-step depth increase (m)'] = max(stats.get('max last-step depth increase (m)', 0.), float(dz[i]))
+                if dz[i] > DEPTH_ROUNDING:
+                    if 'stall' in reason:
+                        viol('depth-increases-on-last-step',
+                             'the last stored step of a run that ends by stall (us <= 0) moves the particle DOWN in still water by more than rounding',
+                             row=i, z=[float(z[i]), float(z[i + 1])], t=[float(t[i]), float(t[i + 1])], increase_m=float(dz[i]))
+                    else:
+                        viol('depth-increases', 'depth increases in still water on the last step without the stall stop',
+                             row=i, z=[float(z[i]), float(z[i + 1])], t=[float(t[i]), float(t[i + 1])])
+            else:
+                viol('depth-increases', 'depth increases in still water on a step after which the loop continued',
                      row=i, z=[float(z[i]), float(z[i + 1])], t=[float(t[i]), float(t[i + 1])])
                 break
         elif dz[i] == 0. and not final:
             viol('loop-continued-after-stall', 'the particle did not rise on a step and the loop continued', row=i)
             break
-    if (z < zmin).any() or (z > float(prf.z_max)).any():
-        i = int(np.argmax((z < zmin) | (z > float(prf.z_max))))
-        viol('outside-profile', 'stored depth outside the profile', row=i, z=float(z[i]), z_min=zmin, z_max=float(prf.z_max))
+    # ---- depth stays inside the profile's OWN range -------------------------------------------------
+    out = (z < zmin) | (z > zmax)
+    if out.any():
+        i = int(np.argmax(out))
+        if i == n - 1 and z[i] < zmin and zmin > 0.:
+            ctx.count('last row above the top of a profile that starts below the surface')
+            viol('last-row-above-profile-top',
+                 'profile whose top lies below the surface: the surface test runs after the step and only rows with depth < 0 are removed, so the last stored depth lies above the profile top (outside the profile)',
+                 row=i, z=float(z[i]), z_min=zmin, z_max=zmax)
+        else:
+            viol('outside-profile', 'stored depth outside the profile', row=i, z=float(z[i]), z_min=zmin, z_max=zmax)
     if not ((y[:, 0] == c['x0']).all() and (y[:, 1] == c['y0']).all()):
         viol('horizontal-drift', 'horizontal position changes in still water')
     # ---- mass invariants --------------------------------------------------------------------
@@ -162,16 +198,21 @@ def check_sim(ctx, idx, c, m, m2, stats):
     nobio = t < t_on if math.isfinite(t_on) else np.ones(n, dtype=bool)      # rows before any biodegradation
     nobio = nobio & np.concatenate(([True], nobio[:-1]))
     if not obj.issoluble:
-        ctx.count('inert: no biodegradation rows', int(nobio.sum()))
+        ctx.count('inert: rows without biodegradation', int(nobio.sum()))
         if not (masses[nobio] == masses[0]).all():
             i = int(np.argmax((masses != masses[0]).any(axis=1) & nobio))
             viol('inert-mass-changes', 'inert particle without biodegradation does not keep exactly its initial mass', row=i, m=float(masses[i, 0]), m0=float(masses[0, 0]))
     elif c['K'] == 0.:
-        ctx.count('K=0: no biodegradation rows', int(nobio.sum()))
+        ctx.count('K=0: rows without biodegradation', int(nobio.sum()))
+        ctx.count('K=0: rows with biodegradation acting (masses only required not to increase)', int((~nobio).sum()))
         if not (masses[nobio] == masses[0]).all():
             i = int(np.argmax((masses != masses[0]).any(axis=1) & nobio))
             viol('K0-mass-changes', 'soluble particle with mass-transfer factor 0 (and no biodegradation yet) does not keep its component masses', row=i,
                  m=[float(v) for v in masses[i]], m0=[float(v) for v in masses[0]])
+        if n > 1 and (np.diff(masses, axis=0) > 1e-12 * masses[0]).any():
+            i = int(np.argmax((np.diff(masses, axis=0) > 1e-12 * masses[0]).any(axis=1)))
+            viol('K0-mass-grows', 'soluble particle with mass-transfer factor 0: a component mass increases', row=i + 1,
+                 m=[float(v) for v in masses[i + 1]], before=[float(v) for v in masses[i]])
     # water free of the compound: the component never exceeds its initial mass by more than the solver tolerance
     comp = list(obj.composition)
     for j, name in enumerate(comp):
@@ -189,7 +230,7 @@ def check_sim(ctx, idx, c, m, m2, stats):
     # ---- first row --------------------------------------------------------------------------
     Ta, Sa, P = [float(v) for v in prf.get_values(c['z0'], ['temperature', 'salinity', 'pressure'])]
     T0 = m._T0_used if m._T0_used is not None else Ta
-    cp = float(m.particle.cp)
+    cp = particle_cp()
     tolg = TOL['gen_vs_source']
     if not (y[0, 0] == c['x0'] and y[0, 1] == c['y0'] and y[0, 2] == c['z0']):
         viol('first-row-position', 'first stored row is not the release position', row0=[float(v) for v in y[0]])
@@ -208,28 +249,42 @@ def check_sim(ctx, idx, c, m, m2, stats):
              m0=[float(v) for v in m0], rho=rho, expected_total=vol * rho)
     if not close(float(y[0, -1]), T0 * float(np.sum(m0)) * cp, tolg):
         viol('first-row-heat', 'initial heat is not T0 * sum(m0) * cp', H0=float(y[0, -1]), expected=T0 * float(np.sum(m0)) * cp)
-    # ---- heat reset rows -----------------------------------------------------------------------
-    nreset = m._n_reset
-    # heat transfer is off from the first stored step on when the factor is 0 or the particle is released
-    # within 0.5 K of the water (the very first right-hand-side evaluation switches the flag); otherwise
-    # the rows are identified by the number of look-ups `get_values(z, 'temperature')` the loop made
+    # ---- what the loop does to the integrator's state: clipping, heat reset (raw state -> stored row) -----------
+    # heat transfer is off from the first pass on when the factor is 0 or the particle is released within 0.5 K of
+    # the water (the very first right-hand-side evaluation switches the flag): reference independent of the object
     all_reset = (c['K_T'] == 0.) or (abs(Ta - T0) < 0.5)
     if all_reset:
-        ctx.count('heat transfer off from the first step')
-        if k_steps is not None and nreset != k_steps:
-            viol('heat-not-reset', 'heat transfer is off from the first step but the loop did not reset the heat on every step',
-                 resets=nreset, steps=k_steps)
-    if k_steps is not None and (nreset or all_reset):
-        first_reset = 1 if all_reset else k_steps + 1 - nreset          # raw row index of the first reset row
-        idxs = [i for i in range(max(first_reset, 1), n) if (masses[i] > 0).all()]
-        if idxs:
-            Tas = np.array([float(prf.get_values(float(z[i]), ['temperature'])[0]) for i in idxs])
-            exp = masses[idxs].sum(axis=1) * cp * Tas
-            bad = [i for i, e in zip(idxs, exp) if not close(float(y[i, -1]), float(e), tolg)]
-            ctx.count('heat-reset rows checked', len(idxs))
-            if bad:
-                i = bad[0]
-                viol('heat-not-reset', 'with heat transfer switched off the stored heat is not sum(m) cp Ta(z)', row=i, H=float(y[i, -1]))
+        ctx.count('heat transfer off from the first pass')
+    nclip = 0
+    for i in range(1, n):
+        tR, yR, _ok, ktR = raw[i - 1]
+        if all_reset and ktR != 0.:
+            viol('K_T-not-switched', 'released within 0.5 K of the water (or K_T = 0) but the flag is not 0 during the run', row=i, K_T=ktR)
+            break
+        mR = yR[3:-1]
+        if (mR < 0).any():
+            nclip += 1
+        exp_m = np.where(mR < 0, 0., mR)
+        if not (np.array_equal(masses[i], exp_m) and np.array_equal(y[i, :3], yR[:3]) and t[i] == tR):
+            viol('post-step-masses', 'stored row is not the integrator state with negative masses set to zero', row=i,
+                 stored=[float(v) for v in y[i]], raw=[float(v) for v in yR])
+            break
+        reset = (ktR == 0.) or all_reset
+        if reset:
+            Ta_i = float(prf.get_values(float(yR[2]), ['temperature'])[0])
+            expH = float(np.sum(mR)) * cp * Ta_i
+        else:
+            expH = float(yR[-1])
+        if not close(float(y[i, -1]), expH, tolg):
+            viol('heat-not-reset' if reset else 'heat-changed',
+                 'with heat transfer switched off the stored heat is not sum(m) cp Ta(z)' if reset else 'stored heat differs from the integrator state although heat transfer is on',
+                 row=i, H=float(y[i, -1]), expected=expH)
+            break
+    ctx.count('stored rows compared with the raw integrator state', max(n - 1, 0))
+    ctx.count('raw integrator states with a negative mass (clipped by the loop)', nclip)
+    if (c['K_T'] == 0. or all_reset) and m._n_reset != k_steps:
+        viol('heat-not-reset', 'heat transfer is off from the first pass but the loop did not look up the temperature for the reset on every pass',
+             resets=m._n_reset, steps=k_steps)
     # ---- K_T restored, determinism ---------------------------------------------------------------
     if m.particle.K_T != c['K_T']:
         viol('K_T-not-restored', 'simulate leaves the particle heat-transfer flag different from the factor it was called with',
@@ -247,11 +302,16 @@ def check_sim(ctx, idx, c, m, m2, stats):
 
 # ---------------------------------------------------------------------------
 
+FLOORS_QUICK = {'simulations completed': 24, 'derivs states': 150, 'derivs states with a negative mass': 25,
+                'post-step states': 80, 'raw integrator states with a negative mass (clipped by the loop)': 2,
+                'profile top below the surface': 3, 'heat transfer off from the first pass': 8, 'identical rerun compared': 12}
+
+
 def run(ctx, lean_ok):
     from tamoc import single_bubble_model, seawater
     r = ctx.rng
     profiles = build_profiles(ctx)
-    nsim = ctx.n(32, 300)
+    nsim = ctx.n(38, 300)
     ncap = ctx.n(1, 4)             # runs sized to end at the 14-day cap
     nstall = ctx.n(3, 20)          # small soluble bubbles that dissolve completely (stall / dissolved stop)
     ndropped = 0
@@ -259,11 +319,14 @@ def run(ctx, lean_ok):
     rows_cap = ctx.n(400, 1500)
     stats = {}
     lines, expect = [], []          # driver requests and what to compare them with
-    nder = 0
+    cp = particle_cp()
+    corpus = S.sbm_corpus(profiles)
     for idx in range(nsim):
-        if idx < ncap:
+        if idx < len(corpus):
+            c = corpus[idx]
+        elif idx < ncap + len(corpus):
             c = S.sbm_cap_case(r, profiles)
-        elif idx < ncap + nstall:
+        elif idx < ncap + len(corpus) + nstall:
             c = S.sbm_stall_case(r, profiles)
         else:
             c = S.sbm_case(r, profiles, rows_cap=rows_cap)
@@ -273,12 +336,19 @@ def run(ctx, lean_ok):
             c['descr']['k_bio'], c['descr']['t_bio'] = c['obj'].k_bio, c['obj'].t_bio
         if c['K'] == 0. and r.random() < 0.6:
             c['lag_time'] = True
+        pub = dict(case_public(c), sim_index=idx)
         try:
             m = S.run_sbm(c, budget)
         except S.BudgetExceeded:
             ctx.count('simulation dropped: more than %d right-hand-side evaluations' % budget)
             ndropped += 1
             continue
+        except Exception as e:
+            # the code under test raised on an input of the quantifier: a failure of the property, never a skip
+            ctx.count('simulate raised')
+            ctx.violation('raises:simulate:' + S.raise_site(e), 'Model.simulate raised on an input of the quantifier: %s' % str(e)[:200], pub)
+            continue
+        ctx.count('simulations completed')
         m2 = None
         if m._n_rhs < budget // 2 and (ctx.thorough is False or r.random() < 0.5):
             try:
@@ -289,23 +359,29 @@ def run(ctx, lean_ok):
         kind = c['descr']['kind']
         ctx.count('particle:' + kind)
         ctx.count('profile:' + c['profile'])
+        if c['prf'].z_min > 0:
+            ctx.count('profile top below the surface')
         ctx.nontrivial.add((kind, tuple(c['descr'].get('composition', ['inert'])), c['profile'], reason,
                             float('%.3g' % c['z0']), float('%.3g' % c['de'])))
         if idx < 4:
             ctx.sample(dict(case_public(c), rows=int(len(m.t)), t_end=float(m.t[-1]), z_end=float(m.y[-1, 2]), stop=reason,
                             mass_fraction_left=float(m.y[-1, 3:-1].sum() / m.y[0, 3:-1].sum())))
-        if not lean_ok:
-            continue
-        # ---- driver requests for this simulation ----------------------------------------------
+        # ---- states for the correspondences (and for the direct predicates on derivs) ------------------
         t, y = np.asarray(m.t, dtype=float), np.asarray(m.y, dtype=float)
+        raw = m._raw
         n = len(t)
         prf, obj, sp = c['prf'], c['obj'], m.particle
-        cp = float(sp.cp)
+        soluble = bool(obj.issoluble)
         Ta0, Sa0, P0 = [float(v) for v in prf.get_values(c['z0'], ['temperature', 'salinity', 'pressure'])]
         T0 = m._T0_used
+        kb = [float(v) for v in np.atleast_1d(np.array(obj.k_bio, dtype=float))]
+        tb = [float(v) for v in np.atleast_1d(np.array(obj.t_bio, dtype=float))]
+        # Particle17.Params from what WE passed to simulate (+ the first stored row for m0), not from the object
+        params = [int(soluble), float(c['K']), float(c['fdis']), float(c['t_hyd']), y[0, 3:-1].copy(),
+                  len(obj.composition), int(bool(c['lag_time'])), kb, tb]
         # initial row
         with S.quiet():
-            if obj.issoluble:
+            if soluble:
                 m1 = obj.masses(np.array(c['yk'], dtype=float))
                 rho = float(obj.density(m1, T0 if T0 is not None else Ta0, P0))
                 lines.append(req('Sbm.massesByDiameter', math.pi, c['de'], rho, c['yk'], np.array(obj.M, dtype=float)))
@@ -316,78 +392,121 @@ def run(ctx, lean_ok):
                 expect.append(('ic-mass', idx, float(y[0, 3])))
         lines.append(req('Sbm.ic', [c['x0'], c['y0'], c['z0']], y[0, 3:-1], int(T0 is not None), T0 if T0 is not None else 0., Ta0, cp))
         expect.append(('ic-row', idx, [float(v) for v in y[0]]))
-        # stop tests on stored steps: the real loop continued after every step but the last
+        # stop tests on EVERY pass (sampled when long): the real loop continued after every pass but the last;
+        # the last pass is judged on the integrator's own last state (also when that row was removed afterwards)
         zmin = float(prf.z_min)
-        steps = list(range(n - 1))
-        if len(steps) > 300:
-            steps = sorted(set(r.sample(steps[:-3], 297) + steps[-3:]))
-        for i in steps:
-            final = (removed == 0 and i == n - 2)
+        passes = list(range(len(raw)))
+        if len(passes) > 300:
+            passes = sorted(set(r.sample(passes[:-3], 297) + passes[-3:]))
+        for i in passes:
+            if i >= n:
+                continue
+            final = (i == len(raw) - 1)
+            tR, yR, okR, _kt = raw[i]
             f = float(y[i, 3:-1].sum() / y[0, 3:-1].sum())
-            lines.append(req('Sbm.stopTests', zmin, c['fdis'], f, i + 1, t[i], y[i, 2], t[i + 1], y[i + 1, 2]))
-            expect.append(('stop', idx, (i, final, flags if final else None)))
-        # post-step fixed point on stored rows with a known flag state
-        nreset = m._n_reset
-        first_reset = (m._k_steps + 1 - nreset) if m._k_steps is not None else n
-        if c['K_T'] == 0. or abs(Ta0 - (T0 if T0 is not None else Ta0)) < 0.5:
-            first_reset = 1
-        rows = [i for i in sorted(set([1, n // 2, n - 1] + [r.randrange(1, n) for _ in range(3)] if n > 1 else [])) if 1 <= i < n]
-        for i in rows:
-            KT_i = 0. if i >= first_reset else (c['K_T'] if c['K_T'] != 0. else 1.)
-            if KT_i == 0. and not (y[i, 3:-1] > 0).all():
-                continue                      # the reset used the masses before clipping
-            Ta_i = float(prf.get_values(float(y[i, 2]), ['temperature'])[0])
-            lines.append(req('Sbm.postStep', KT_i, cp, Ta_i, y[i]))
+            lines.append(req('Sbm.stopTests', zmin, c['fdis'], f, i + 1, t[i], y[i, 2], tR, yR[2]))
+            expect.append(('stop', idx, (i, final, okR, flags if final else None)))
+        # post-step: integrator state (UNCLIPPED) -> stored row
+        cand = [i for i in range(1, n) if (raw[i - 1][1][3:-1] < 0).any()]
+        rows = sorted(set(cand[:6] + ([1, n // 2, n - 1] if n > 1 else []) + [r.randrange(1, n) for _ in range(3 if n > 1 else 0)]))
+        all_reset = (c['K_T'] == 0.) or (abs(Ta0 - (T0 if T0 is not None else Ta0)) < 0.5)
+        for i in [k for k in rows if 1 <= k < n]:
+            tR, yR, _ok, ktR = raw[i - 1]
+            KT_i = 0. if all_reset else ktR
+            Ta_i = float(prf.get_values(float(yR[2]), ['temperature'])[0])
+            lines.append(req('Sbm.postStep', KT_i, cp, Ta_i, yR))
             expect.append(('post', idx, (i, [float(v) for v in y[i]])))
-        # derivs on sampled stored states
-        cand = sorted(set([0, 1, n // 2, n - 2, n - 1] + [r.randrange(n) for _ in range(3)]))
-        for i in [k for k in cand if 0 <= k < n]:
+            ctx.count('post-step states')
+        # derivs: stored rows, raw states with negative masses, synthetic negative-mass variants
+        states = []
+        for i in sorted(set([0, 1, n // 2, n - 2, n - 1] + [r.randrange(n) for _ in range(3)])):
+            if 0 <= i < n:
+                states.append((float(t[i]), y[i].copy(), 'stored'))
+        for i in cand[:3]:
+            states.append((raw[i - 1][0], raw[i - 1][1].copy(), 'raw-negative'))
+        for _ in range(2):
+            i = r.randrange(n)
+            ys = y[i].copy()
+            nm = len(ys) - 4
+            js = r.sample(range(nm), r.randint(1, nm))
+            for j in js:
+                ys[3 + j] = -abs(y[0, 3 + j]) * 10 ** r.uniform(-15, -9)
+            if soluble and not (ys[3:-1] > 0).any() and nm > 1 and r.random() < 0.7:
+                j = r.randrange(nm)
+                ys[3 + j] = y[0, 3 + j] * r.uniform(0.01, 1.)       # keep a positive component most of the time
+            if not soluble:
+                continue                                             # an inert mass never overshoots (no dissolution)
+            states.append((float(t[i]), ys, 'synthetic-negative'))
+        for (ti, ystate, origin) in states:
             KT_in = r.choice([float(c['K_T']), 0.])
-            yi = y[i].copy()
+            yi = ystate.copy()
             zi = float(yi[2])
             Ta, Sa, P, ua, va, wa = [float(v) for v in prf.get_values(zi, ['temperature', 'salinity', 'pressure', 'ua', 'va', 'wa'])]
-            C = [float(v) for v in prf.get_values(zi, list(sp.composition))]
+            C = [float(v) for v in prf.get_values(zi, list(obj.composition))]
             sp.K_T = KT_in
+            pubd = dict(pub, t=ti, y=[float(v) for v in ystate], K_T_in=KT_in, state=origin)
             try:
                 with S.quiet(), S.Recorder(obj) as rec:
-                    yp = single_bubble_model.derivs(float(t[i]), yi, prf, sp, m.p)
+                    yp = single_bubble_model.derivs(ti, yi, prf, sp, m.p)
                 KT_out = float(sp.K_T)
             except Exception as e:
-                ctx.count('derivs raised on a stored state (%s)' % type(e).__name__)
+                ctx.count('derivs raised')
+                ctx.violation('raises:derivs:' + S.raise_site(e), 'derivs raised on a state of a trajectory: %s' % str(e)[:200], pubd)
                 sp.K_T = c['K_T']
                 continue
             sp.K_T = c['K_T']
+            ctx.count('derivs states')
+            ctx.count('derivs state:' + origin)
+            negm = bool((ystate[3:-1] < 0).any())
+            if negm:
+                ctx.count('derivs states with a negative mass')
             if len(rec.lib) != 1:
                 ctx.broken.append(('correspondence', 'derivs calls return_all once', 'calls=%d' % len(rec.lib)))
                 continue
-            nder += 1
-            ctx.nontrivial.add(('derivs', kind, tuple(c['descr'].get('composition', ['inert'])), KT_in == 0.,
-                                float('%.6g' % t[i]), float('%.6g' % zi)))
-            rho_l, us_l, A_l, Cs_l, beta_l, bT_l = S.lib_answer(bool(obj.issoluble), rec.lib[0][1])
+            ctx.nontrivial.add(('derivs', kind, tuple(c['descr'].get('composition', ['inert'])), KT_in == 0., origin,
+                                float('%.6g' % ti), float('%.6g' % zi)))
+            rho_l, us_l, A_l, Cs_l, beta_l, bT_l = S.lib_answer(soluble, rec.lib[0][1])
             rho_amb = rec.swcalls[0][1] if rec.swcalls else NAN
-            lines.append(req('Sbm.derivs', *(S.params_args(sp) + [KT_in, cp, float(t[i]), y[i], P, Sa, Ta, ua, va, wa, C,
-                                                                   rho_l, us_l, A_l, Cs_l, beta_l, bT_l, rho_amb])))
-            expect.append(('derivs', idx, (i, KT_out, [float(v) for v in yp])))
-            # direct predicates on the real right-hand side
+            lines.append(req('Sbm.derivs', *(params + [KT_in, cp, ti, ystate, P, Sa, Ta, ua, va, wa, C,
+                                                       rho_l, us_l, A_l, Cs_l, beta_l, bT_l, rho_amb])))
+            expect.append(('derivs', idx, (origin, KT_out, [float(v) for v in yp])))
+            # ---- direct predicates on the real right-hand side ------------------------------------
             ctx.evaluations += 1
             ypm = np.asarray(yp[3:-1], dtype=float)
-            pubd = dict(case_public(c), sim_index=idx, row=i, t=float(t[i]), y=[float(v) for v in y[i]], K_T_in=KT_in, yp=[float(v) for v in yp])
-            if np.isfinite(yp[2]) and not (yp[0] == 0. and yp[1] == 0. and yp[2] <= 0.):
+            pubd['yp'] = [float(v) for v in yp]
+            mcl = np.where(ystate[3:-1] < 0, 0., ystate[3:-1]) if soluble else ystate[3:-1]
+            if not np.isfinite(np.asarray(yp, dtype=float)).all():
+                if not (mcl > 0).any():
+                    ctx.count('derivs non-finite at zero total mass (C17 finding properties-nan-all-masses-zero)')
+                elif rho_l >= float(seawater.density(Ta, Sa, P)):
+                    ctx.count('derivs non-finite for a particle denser than the water')
+                else:
+                    ctx.violation('rhs-nonfinite', 'derivs returns a non-finite rate for a buoyant particle with positive mass', pubd)
+                continue
+            if not (yp[0] == 0. and yp[1] == 0. and yp[2] <= 0.):
                 ctx.violation('rhs-depth-rate-positive', 'derivs: depth rate positive (or horizontal drift) in still water', pubd)
-            kbn = np.atleast_1d(np.array(sp.biodegradation_rate(float(t[i])), dtype=float))
-            if (not obj.issoluble or c['K'] == 0.) and (kbn == 0).all() and np.isfinite(ypm).all():
+            kbn = np.atleast_1d(np.array(obj.biodegradation_rate(ti, c['lag_time']), dtype=float))
+            if (not soluble or c['K'] == 0.) and (kbn == 0).all():
                 ctx.count('rhs: zero mass rate expected')
                 if not (ypm == 0.).all():
                     ctx.violation('rhs-mass-rate-nonzero', 'derivs: mass rate non-zero for an inert particle / K = 0 without biodegradation', pubd)
-            if np.isfinite(ypm).all():
-                for j, cj in enumerate(C if obj.issoluble else []):
-                    if cj == 0. and ypm[j] > 0.:
-                        ctx.violation('rhs-mass-rate-positive-clean-water', 'derivs: component mass rate positive in water free of the compound', dict(pubd, component=j))
+            for j, cj in enumerate(C if soluble else []):
+                if cj == 0. and ypm[j] > 0.:
+                    ctx.violation('rhs-mass-rate-positive-clean-water', 'derivs: component mass rate positive in water free of the compound', dict(pubd, component=j))
+    # ---- floors ---------------------------------------------------------------------------------
     ctx.oblige('at least 80 %% of the %d generated simulations complete within the budget of %d right-hand-side evaluations' % (nsim, budget),
                ndropped <= 0.2 * nsim, '%d dropped' % ndropped)
+    scale = 1 if not ctx.thorough else 6
+    short = {k: (ctx.hist.get(k, 0), v * scale) for k, v in FLOORS_QUICK.items() if ctx.hist.get(k, 0) < v * scale}
+    stops = [k for k in ctx.hist if k.startswith('stop:')]
+    for need in ('surface', 'dissolved', 'capT'):
+        if not any(need in k for k in stops):
+            short['stop:' + need] = (0, 1)
+    ctx.oblige('coverage floors (simulations, derivs / post-step states incl. negative masses, profiles with the top below the surface, stop reasons surface / dissolved / time cap)',
+               not short, 'below floor (have, want): %r' % short)
     ctx.notes.append('the step cap (k > 300000) is not reachable within the time budget of a check: covered by the theorem stop_reason_sbm only')
     ctx.notes.append('observed on the trajectories (VODE not modelled): %r' % stats)
-    ctx.notes.append('VODE tolerances rtol=%g atol=%g; depth may rise on the LAST step of a run that ends by stall (us <= 0 is that test) by at most rtol*|z|+atol' % (VODE_RTOL, VODE_ATOL))
+    ctx.notes.append('K = 0 clause: exact constancy on rows before biodegradation acts; with biodegradation acting the masses decrease by design (reading stated in META)')
     if not lean_ok:
         return
     out = run_driver(ctx, 'C05', lines)
@@ -402,43 +521,41 @@ def run(ctx, lean_ok):
         ok = isinstance(o, list)
         detail = ''
         if ok:
-            if kind in ('ic-masses', 'ic-row'):
-                ok = close(o[0], exp, tol)
-                detail = 'model=%r code=%r' % (o[0], exp)
-            elif kind == 'ic-mass':
+            if kind in ('ic-masses', 'ic-row', 'ic-mass'):
                 ok = close(o[0], exp, tol)
                 detail = 'model=%r code=%r' % (o[0], exp)
             elif kind == 'post':
                 ok = close(o[0], exp[1], tol)
-                detail = 'row %d model=%r stored=%r' % (exp[0], o[0], exp[1])
+                detail = 'row %d model(postStep of the raw integrator state)=%r stored=%r' % (exp[0], o[0], exp[1])
             elif kind == 'stop':
-                i, final, flags = exp
+                i, final, okR, flags = exp
                 got = dict(zip(('surface', 'stall', 'dissolved', 'capK', 'capT'), [bool(v) for v in o]))
                 if final:
-                    ok = (flags is None) or got == {k: flags[k] for k in got}
-                    detail = 'final step %d model=%r harness=%r' % (i, got, flags)
+                    # the real loop ended here: a test of the model fires, or the integrator reported failure
+                    ok = (any(got.values()) or not okR) and (flags is None or got == {k: flags[k] for k in got})
+                    detail = 'last pass %d model=%r harness=%r integrator ok=%r' % (i, got, flags, okR)
                 else:
                     ok = not any(got.values())          # the real loop went on
-                    detail = 'step %d: real loop continued, model flags=%r' % (i, got)
+                    detail = 'pass %d: real loop continued, model flags=%r' % (i, got)
             elif kind == 'derivs':
-                i, KT_out, yp = exp
+                origin, KT_out, yp = exp
                 ok = (o[0] == KT_out) and close(o[1], yp, tol)
                 if ok:
                     for a, b in zip(o[1], yp):
                         if math.isfinite(a) and math.isfinite(b):
                             worst = max(worst, relerr(a, b))
-                detail = 'row %d K_T model=%r code=%r yp model=%r code=%r' % (i, o[0], KT_out, o[1], yp)
+                detail = '%s state K_T model=%r code=%r yp model=%r code=%r' % (origin, o[0], KT_out, o[1], yp)
         else:
             detail = str(o)
         if not ok:
             bad[kind] += 1
             if sum(bad.values()) <= 4:
                 ctx.broken.append(('correspondence', 'Sbm %s vs single_bubble_model (simulation %d)' % (kind, idx), detail[:1500]))
-    ctx.oblige('correspondence Sbm.derivs (with Particle17.properties, recorded library answers) == single_bubble_model.derivs on %d sampled states (rel %g)' % (cnt['derivs'], tol),
+    ctx.oblige('correspondence Sbm.derivs (with Particle17.properties, recorded library answers) == single_bubble_model.derivs on %d states (stored, raw unclipped, synthetic negative-mass) (rel %g)' % (cnt['derivs'], tol),
                bad['derivs'] == 0, '%d disagreements' % bad['derivs'])
-    ctx.oblige('correspondence Sbm.stopTests: no flag on the %d stored steps after which the real loop continued, same flags on the last step' % cnt['stop'],
+    ctx.oblige('correspondence Sbm.stopTests: no flag on the %d passes after which the real loop continued, a flag (or integrator failure) on the last pass' % cnt['stop'],
                bad['stop'] == 0, '%d disagreements' % bad['stop'])
-    ctx.oblige('correspondence Sbm.postStep leaves %d stored rows unchanged (clipping + heat reset already applied by the real loop) (rel %g)' % (cnt['post'], tol),
+    ctx.oblige('correspondence Sbm.postStep (heat reset + clipping) maps %d raw integrator states to the stored rows (rel %g)' % (cnt['post'], tol),
                bad['post'] == 0, '%d disagreements' % bad['post'])
     ctx.oblige('correspondence Sbm.ic / massesByDiameter == first stored row of %d simulations (rel %g)' % (cnt['ic-row'], tol),
                bad['ic-row'] + bad['ic-masses'] + bad['ic-mass'] == 0, '%d disagreements' % (bad['ic-row'] + bad['ic-masses'] + bad['ic-mass']))
